@@ -4,6 +4,8 @@ import TwistedModel.Framing.Line
 import TwistedModel.Framing.Netstring
 import TwistedProps.C16.IntN
 import TwistedProps.C16.LineOnly
+import TwistedProps.C16.Netstring
+import TwistedProps.C16.Line
 /-!
 C16 — framed-message receivers are segmentation-invariant with exact length limits.
 
@@ -22,6 +24,9 @@ For each receiver:
 * `…_over_limit_never_delivered`.
 "Quiescent" (`closed ∨ ¬ paused` at the end of the schedule) is the statement's own
 precondition for pausable receivers: a receiver left paused has, by design, not delivered yet.
+
+All four receivers are proved at full strength: `intN_*`, `lineOnly_*`, `netstring_*`, `line_*`
+(LineReceiver: line mode, raw mode switches and pause/resume requested by the callbacks).
 -/
 namespace TwistedProps.C16
 open Twisted.Framing
@@ -41,6 +46,27 @@ theorem mem_run {σ : Type} (M : Machine σ) (e : Ev) :
       rcases h with h | h
       · exact ⟨s, op, h⟩
       · exact ih _ h
+
+/-- an event of a run is an event of a step taken from a reachable (not yet closed) state:
+    `P` is any property of states that the steps preserve -/
+theorem mem_run_inv {σ : Type} (M : Machine σ) (P : σ → Prop)
+    (hP : ∀ s op, P s → M.closed s = false → P (M.step s op).1) (e : Ev) :
+    ∀ (ops : List Op) (s : σ), P s → e ∈ (M.run s ops).2 →
+      ∃ s' op, P s' ∧ M.closed s' = false ∧ e ∈ (M.step s' op).2 := by
+  intro ops
+  induction ops with
+  | nil => intro s _ h; simp [Machine.run] at h
+  | cons op ops ih =>
+    intro s hs h
+    simp only [Machine.run] at h
+    split at h
+    · simp at h
+    · rename_i hc
+      have hc' : M.closed s = false := by simpa using hc
+      simp only [List.mem_append] at h
+      rcases h with h | h
+      · exact ⟨s, op, hs, hc', h⟩
+      · exact ih _ (hP s op hs hc') h
 
 /-! ## Int8/16/32StringReceiver -/
 section IntN
@@ -176,73 +202,147 @@ example : LineOnly.Sendable [13, 10] [97, 13] := by unfold LineOnly.Sendable; de
 
 end LineOnly
 
-/-! ## NetstringReceiver and LineReceiver — PARTIAL
+/-! ## NetstringReceiver
 
-Both are modelled (`Framing/Netstring.lean`, `Framing/Line.lean` `Recv`) and tied to the code on
-every run (all single cuts of structured streams, pause/resume, raw-mode switches), and the
-oracle checks segmentation invariance and the reference framing on the implementation.  The
-full-strength statements, NOT yet proved in Lean, are
-
-  theorem netstring_seg_invariant (c) (h : 1 ≤ c.maxLen) (ops) :
-      upTo ((Netstring.machine c).run Netstring.init ops).2 = upTo (Netstring.refStream c (dataOf ops))
-  theorem lineReceiver_seg_invariant (c) (hd : c.delim ≠ []) (ops₁ ops₂) (same data, both quiescent) :
-      obs ((Line.Recv.machine c).run init ops₁).2 = obs ((Line.Recv.machine c).run init ops₂).2
-      -- obs: exceeded-argument erased, adjacent raw deliveries joined, cut at first close
-
-What is missing is the per-receiver splitting lemma (`hstep` of `run_obs`): for netstrings the
-resumption of a partially received length/payload, for LineReceiver the loop with mode switches.
-What is proved below are the limit halves that do not need it. -/
-section Partial
+`Netstring.Cfg.maxLen = 0` is outside the tie (`MAX_LENGTH = 0` raises `ValueError` in
+`_maxLengthSize`); the theorems below hold for the model at every `maxLen`, so no hypothesis
+`1 ≤ maxLen` is needed.  NetstringReceiver has no pause/resume; `Op.resume` is a no-op. -/
+section Netstring
 open Twisted.Framing.Netstring
 
-theorem consumePayload_len (s : St) (s' : St) (m : Bytes)
-    (h : consumePayload s = .done s' m) (he : 1 ≤ s.expected) (hp : s.payload.length = s.current)
-    (hc : s.current ≤ s.expected) : m.length + 1 = s.expected := by
-  unfold consumePayload at h
-  simp only at h
-  split at h
-  · rename_i hge
-    simp only [Nat.lt_irrefl, if_false] at h
-    split at h
-    · cases h
-    · injection h with _ hm
-      subst hm
-      simp only [List.length_dropLast, List.length_append, List.length_take, hp]
-      omega
-  · rename_i hlt
-    split at h
-    · cases h
-    · rename_i h2
-      simp only [List.length_append] at h2
-      omega
+/-- **Netstring, reference framing**: for every limit, application script and schedule of
+    deliveries, the events up to the first close request are the reference framing of the
+    concatenated stream. -/
+theorem netstring_matches_reference (c : Cfg) (ops : List Op) :
+    upTo ((machine c).run init ops).2 = upTo (refStream c (dataOf ops)) := by
+  rw [Netstring.run_once c ops, Netstring.feed_init_ref]
 
-/-- **Netstring, partial (`_partial`)**: a string handed to `stringReceived` directly after its
-    length was parsed in the same `_consumeData` call is never longer than `MAX_LENGTH`.
-    (Missing for the full `over_limit_never_delivered`: the invariant `expected ≤ MAX_LENGTH + 1`
-    carried across deliveries that end inside a payload.) -/
-theorem netstring_over_limit_never_delivered_partial (c : Cfg) (s s' : St) (m : Bytes)
-    (hs : s.inPayload = false) (h : consume c s = .done s' m) : m.length ≤ c.maxLen := by
-  unfold consume at h
-  simp only [hs, Bool.false_eq_true, if_false] at h
-  split at h
-  · cases h
-  · split at h <;> cases h
-  · rename_i ds after _
-    split at h
-    · cases h
-    · rename_i hb
-      have := consumePayload_len _ _ _ h (by simp) (by simp) (by simp)
-      simp only [tooBig, Bool.or_eq_true, decide_eq_true_eq, not_or] at hb
-      simp only at this
-      omega
+/-- **Netstring, segmentation invariance**: two schedules carrying the same stream (any cuts,
+    a partially received length specification or payload included) deliver the same events up
+    to the first close request. -/
+theorem netstring_seg_invariant (c : Cfg) (ops₁ ops₂ : List Op) (hd : dataOf ops₁ = dataOf ops₂) :
+    upTo ((machine c).run init ops₁).2 = upTo ((machine c).run init ops₂).2 := by
+  rw [Netstring.run_once c ops₁, Netstring.run_once c ops₂, hd]
 
+/-- … in particular any schedule versus the stream delivered at once -/
+theorem netstring_seg_invariant_once (c : Cfg) (ops : List Op) :
+    upTo ((machine c).run init ops).2 = upTo ((machine c).run init [.data (dataOf ops)]).2 :=
+  netstring_seg_invariant c ops [.data (dataOf ops)] (by simp [dataOf, Op.bytes])
+
+/-- **Netstring, send/receive and "within the limit is never rejected"**: the strings `ms`, each
+    within `MAX_LENGTH`, written by `sendString` back to back and delivered under any schedule,
+    are received as exactly `ms` (with the script's close requests); no parse error. -/
+theorem netstring_send_receive (c : Cfg) (ms : List Bytes) (hm : ∀ m ∈ ms, m.length ≤ c.maxLen)
+    (ops : List Op) (hd : dataOf ops = (ms.map send).flatten) :
+    upTo ((machine c).run init ops).2 = upTo (Netstring.delivered c 0 ms) := by
+  rw [netstring_matches_reference, hd, refStream, Netstring.ref_frames c ms hm 0 _ (by omega)]
+
+/-- **Netstring, a longer string is never delivered** (anywhere in the run, not only before the
+    first close request; the announced size is carried across deliveries that end inside a
+    payload). -/
+theorem netstring_over_limit_never_delivered (c : Cfg) (ops : List Op) (m : Bytes)
+    (h : Ev.str m ∈ ((machine c).run init ops).2) : m.length ≤ c.maxLen := by
+  obtain ⟨s, op, hs, hcl, h⟩ := mem_run_inv (machine c) (Netstring.Settled c)
+    (fun s op hs hcl => Netstring.step_settled c s op hs hcl) _ ops init (Netstring.settled_init c) h
+  exact Netstring.step_within c s op m hs hcl h
+
+/-- (kept from the earlier partial result) from *any* state that is parsing a length, a string
+    handed to `stringReceived` in the same `_consumeData` call is within `MAX_LENGTH` -/
+theorem netstring_fresh_string_within_limit (c : Cfg) (s s' : St) (m : Bytes)
+    (hs : s.inPayload = false) (h : consume c s = .done s' m) : m.length ≤ c.maxLen :=
+  (Netstring.consume_done c s s' m (fun hp => by rw [hs] at hp; cases hp) h).2.2.2.2
+
+/-! non-vacuity: MAX_LENGTH 12; length and payload split across deliveries; a second string
+    closes; an over-long length is refused as soon as its digits are there -/
 example : ((machine ⟨12, fun _ => {}⟩).run init
     [.data [51, 58, 97, 98], .data [99, 44, 48, 58, 44, 49, 51, 58]]).2 = [.str [97, 98, 99], .str [], .close] := by
   decide
-example : ((Line.Recv.machine ⟨[10], 5, fun k => if k = 0 then { raw := 3 } else { pause := true }⟩).run Line.Recv.init
-    [.data [97, 10, 1], .data [2, 3, 98, 10, 99, 10], .resume]).2 =
-    [.line [97], .raw [1], .raw [2, 3], .line [98], .line [99]] := by decide
+example : upTo (refStream ⟨12, fun _ => {}⟩ [51, 58, 97, 98, 99, 44, 48, 58, 44, 49, 51, 58]) =
+    [.str [97, 98, 99], .str [], .close] := by decide
+example : upTo ((machine ⟨12, fun k => if k = 0 then { close := true } else {}⟩).run init
+    [.data [49], .data [58, 97], .data [44, 49, 58, 98, 44]]).2 = [.str [97], .close] := by decide
+example : send [97, 98, 99] = [51, 58, 97, 98, 99, 44] := by decide
+example : Netstring.delivered ⟨12, fun _ => {}⟩ 0 [[97], []] = [.str [97], .str []] := by decide
 
-end Partial
+end Netstring
+
+/-! ## LineReceiver (line mode, raw mode, pause/resume)
+
+The application is a script: on the k-th line it may close, pause (`pauseProducing`) and/or
+switch to raw mode for `raw` bytes, after which its raw handler calls `setLineMode(rest)`.
+The observation `Line.obsRecv` erases the argument of `lineLengthExceeded` (as for
+LineOnlyReceiver), joins adjacent `rawDataReceived` chunks (how a raw body is chunked *is* the
+segmentation) and cuts at the first close request.  "Quiescent" as for IntN. -/
+section LineReceiver
+open Twisted.Framing.Line Twisted.Framing.Line.Recv
+
+/-- **LineReceiver, reference framing**: for every delimiter, limit, application script (closing,
+    pausing, switching to raw mode) and schedule of deliveries and `resumeProducing` calls that
+    ends quiescent, the observed events are the reference framing of the concatenated stream. -/
+theorem line_matches_reference (c : Cfg) (ops : List Op)
+    (hq : ((machine c).run init ops).1.closed = true ∨ ((machine c).run init ops).1.paused = false) :
+    Line.obsRecv.obs ((machine c).run init ops).2 = Line.obsRecv.obs (refStream c (dataOf ops)) :=
+  Line.run_ref c ops hq
+
+/-- **LineReceiver, segmentation invariance**: two schedules carrying the same stream (any cuts —
+    inside a delimiter, inside a raw body —, any interleaving of `resumeProducing`, with the
+    pauses and line/raw mode switches the callbacks request) are observed the same. -/
+theorem line_seg_invariant (c : Cfg) (ops₁ ops₂ : List Op) (hd : dataOf ops₁ = dataOf ops₂)
+    (hq₁ : ((machine c).run init ops₁).1.closed = true ∨ ((machine c).run init ops₁).1.paused = false)
+    (hq₂ : ((machine c).run init ops₂).1.closed = true ∨ ((machine c).run init ops₂).1.paused = false) :
+    Line.obsRecv.obs ((machine c).run init ops₁).2 = Line.obsRecv.obs ((machine c).run init ops₂).2 := by
+  rw [Line.run_ref c ops₁ hq₁, Line.run_ref c ops₂ hq₂, hd]
+
+/-- … in particular any schedule versus the stream delivered at once and then resumed `k` times -/
+theorem line_seg_invariant_once (c : Cfg) (ops : List Op) (k : Nat)
+    (hq : ((machine c).run init ops).1.closed = true ∨ ((machine c).run init ops).1.paused = false)
+    (hq' : ((machine c).run init (.data (dataOf ops) :: List.replicate k .resume)).1.closed = true ∨
+      ((machine c).run init (.data (dataOf ops) :: List.replicate k .resume)).1.paused = false) :
+    Line.obsRecv.obs ((machine c).run init ops).2 =
+      Line.obsRecv.obs ((machine c).run init (.data (dataOf ops) :: List.replicate k .resume)).2 := by
+  apply line_seg_invariant c _ _ _ hq hq'
+  have : ∀ k, dataOf (List.replicate k Op.resume) = [] := by
+    intro k; induction k with
+    | zero => rfl
+    | succ k ih => simp [List.replicate_succ, dataOf, Op.bytes, ih]
+  simp [dataOf, Op.bytes, this]
+
+/-- **LineReceiver, send/receive and "within the limit is never rejected"**: for an application
+    that stays in line mode, lines `ms` that `sendLine` can carry, each within `MAX_LENGTH`,
+    written back to back and delivered under any schedule that ends quiescent, are received as
+    exactly `ms`; no `lineLengthExceeded`. -/
+theorem line_send_receive (c : Cfg) (hraw : ∀ k, (c.script k).raw = 0) (ms : List Bytes)
+    (hs : ∀ m ∈ ms, LineOnly.Sendable c.delim m) (hm : ∀ m ∈ ms, m.length ≤ c.maxLen)
+    (ops : List Op) (hdata : dataOf ops = (ms.map (send c)).flatten)
+    (hq : ((machine c).run init ops).1.closed = true ∨ ((machine c).run init ops).1.paused = false) :
+    Line.obsRecv.obs ((machine c).run init ops).2 = upTo (LineOnly.delivered c 0 ms) := by
+  rw [Line.run_ref c ops hq, hdata, refStream, Line.ref_frames c hraw ms hs hm 0 _ (by omega)]
+  exact Line.obs_delivered c ms 0
+
+/-- **LineReceiver, a longer line is never delivered** (anywhere in the run). -/
+theorem line_over_limit_never_delivered (c : Cfg) (ops : List Op) (l : Bytes)
+    (h : Ev.line l ∈ ((machine c).run init ops).2) : l.length ≤ c.maxLen := by
+  obtain ⟨s, op, h⟩ := mem_run (machine c) _ ops init h
+  exact Line.step_within c s op l h
+
+/-- **join law for the model of `bytes.split`** (used by the LineOnlyReceiver reference framing):
+    the pieces joined by the delimiter give back the stream — `pySplit` loses and invents nothing. -/
+theorem split_join (d b : Bytes) : Line.pyJoin d (pySplit d b) = b := Line.pySplit_join d b
+
+example : pySplit [13, 10] [97, 13, 10, 13, 10, 98] = [[97], [], [98]] := by decide
+
+/-! non-vacuity: delimiter LF, MAX_LENGTH 5; the first line asks for 3 raw bytes, later lines pause -/
+def exR : Cfg := ⟨[10], 5, fun k => if k = 0 then { raw := 3 } else { pause := true }⟩
+example : ((machine exR).run init [.data [97, 10, 1], .data [2, 3, 98, 10, 99, 10], .resume]).2 =
+    [.line [97], .raw [1], .raw [2, 3], .line [98], .line [99]] := by decide
+example : Line.obsRecv.obs ((machine exR).run init [.data [97, 10, 1], .data [2, 3, 98, 10, 99, 10], .resume]).2 =
+    [.line [97], .raw [1, 2, 3], .line [98], .line [99]] := by decide
+example : Line.obsRecv.obs (refStream exR [97, 10, 1, 2, 3, 98, 10, 99, 10]) =
+    [.line [97], .raw [1, 2, 3], .line [98], .line [99]] := by decide
+example : ((machine exR).run init [.data [97, 10, 1, 2, 3, 98, 10, 99, 10], .resume]).1.paused = true := by decide
+example : Line.obsRecv.obs ((machine ⟨[13, 10], 3, fun _ => {}⟩).run init [.data [97, 98, 99, 13], .data [10, 97, 98, 99, 100, 13]]).2 =
+    [.line [97, 98, 99], .exceeded [], .close] := by decide
+
+end LineReceiver
 
 end TwistedProps.C16
